@@ -110,7 +110,7 @@ def run(ctx):
     st = explore(base, ["ans", "noise"], 0, sink, name="matrix/b0")
     adv = [job(D, g, "det", c, seeds[0], base=b) for D in Ds for g in ("lin", "log") for c in ("half", "ball", "annulus") for b in ("F", "S4")]
     st = explore(adv, ["ans"], 1 if q else 2, sink, stats=st, name="adv/b", pos_ok=(lambda k, p, r: p < 12) if q else None,
-                 cap=None if q else st["executions"] + 20000)
+                 cap=None if q else st["executions"] + 10000)
     nz = [job(D, "lin", "decl", c, seeds[0]) for D in Ds[:2] for c in ("ball", "half")]
     st = explore(nz, ["noise"], 1, sink, stats=st, name="noisy/b1", pos_ok=lambda k, p, r: p % (6 if q else 2) == 0)
     # initial-design points: for every design point the unconstrained run evaluates, a half-space whose boundary passes a hair
